@@ -2,18 +2,18 @@ import TdModel.Model.C36
 
 namespace TdModel.C36
 
-/-- The regenerated comparator is the specification's strict order. Everything else in this
-file is derived from this one lemma, so only it depends on the shape of the source expression. -/
-theorem less_iff (a b : Ent) :
-    less a b = true ↔ (a.off < b.off ∨ (a.off = b.off ∧ a.len > b.len)) := by
-  unfold less Facts.C36.less
-  by_cases h1 : a.off < b.off <;> by_cases h2 : a.off = b.off <;> by_cases h3 : a.len > b.len <;>
-    simp [h1, h2, h3] <;> omega
+/-! ### The specification's comparator and order -/
 
-theorem not_less_iff_ordered (a b : Ent) : less b a = false ↔ Ordered a b := by
-  have h := less_iff b a
+theorem specLess_iff (a b : Ent) :
+    specLess a b = true ↔ (a.off < b.off ∨ (a.off = b.off ∧ a.len > b.len)) := by
+  unfold specLess
+  by_cases h1 : a.off < b.off <;> by_cases h2 : a.off = b.off <;> by_cases h3 : a.len > b.len <;>
+    simp [h1, h2, h3]
+
+theorem not_specLess_iff_ordered (a b : Ent) : specLess b a = false ↔ Ordered a b := by
+  have h := specLess_iff b a
   unfold Ordered
-  cases hb : less b a
+  cases hb : specLess b a
   · simp only [hb, Bool.false_eq_true, false_iff, true_iff] at *; omega
   · simp only [hb, true_iff, Bool.true_eq_false, false_iff] at *; omega
 
@@ -29,7 +29,29 @@ theorem ordered_antisymm {a b : Ent} (h1 : Ordered a b) (h2 : Ordered b a) : a =
 theorem ordered_total (a b : Ent) : Ordered a b ∨ Ordered b a := by
   unfold Ordered; omega
 
-/-- For a transitive relation, "no adjacent inversion" is "pairwise". -/
+/-! ### The regenerated comparator (statements that hold for the pinned expression AND for the
+specification's, and for nothing that orders some comparable pair differently) -/
+
+/-- The source's comparator agrees with the specification's on every pair except possibly those
+where `b` starts earlier than `a` and is shorter. -/
+theorem less_eq_spec (a b : Ent) (h : ¬ (b.off < a.off ∧ b.len < a.len)) : less a b = specLess a b := by
+  unfold less Facts.C36.less specLess
+  by_cases h1 : a.off < b.off <;> by_cases h2 : a.off = b.off <;> by_cases h3 : a.len > b.len <;>
+    simp [h1, h2, h3] <;> omega
+
+/-- If the source's comparator does not put `b` before `a`, then `a, b` is in specified order. -/
+theorem less_false_ordered (a b : Ent) (h : less b a = false) : Ordered a b := by
+  unfold less Facts.C36.less at h
+  unfold Ordered
+  by_cases h1 : b.off < a.off <;> by_cases h2 : b.off = a.off <;> by_cases h3 : b.len > a.len <;>
+    simp [h1, h2, h3] at h <;> omega
+
+theorem less_irrefl (a : Ent) : less a a = false := by
+  unfold less Facts.C36.less
+  simp
+
+/-! ### Adjacent vs pairwise -/
+
 theorem adj_head {α} {r : α → α → Prop} (tr : ∀ x y z, r x y → r y z → r x z) :
     ∀ (l : List α) (a : α), AdjSorted r (a :: l) → ∀ b ∈ l, r a b := by
   intro l
@@ -69,26 +91,37 @@ theorem pairwise_adj {α} {r : α → α → Prop} : ∀ l : List α, l.Pairwise
       have h' := List.pairwise_cons.mp h
       exact ⟨h'.1 b (List.Mem.head _), ih h'.2⟩
 
-theorem adj_congr {α} {r s : α → α → Prop} (hrs : ∀ a b, r a b → s a b) :
-    ∀ l : List α, AdjSorted r l → AdjSorted s l := by
+/-- Change the relation on the members of the list only. -/
+theorem adj_congr_mem {α} {r s : α → α → Prop} :
+    ∀ l : List α, (∀ a ∈ l, ∀ b ∈ l, r a b → s a b) → AdjSorted r l → AdjSorted s l := by
   intro l
   induction l with
-  | nil => intro _; trivial
+  | nil => intro _ _; trivial
   | cons a t ih =>
-    intro h
+    intro hrs h
     cases t with
     | nil => trivial
     | cons b t' =>
       have h' : r a b ∧ AdjSorted r (b :: t') := h
-      exact ⟨hrs a b h'.1, ih h'.2⟩
+      exact ⟨hrs a (List.Mem.head _) b (List.Mem.tail _ (List.Mem.head _)) h'.1,
+        ih (fun x hx y hy => hrs x (List.Mem.tail _ hx) y (List.Mem.tail _ hy)) h'.2⟩
 
-/-- An output obeying `sort.Sort`'s contract for the regenerated comparator is ordered. -/
+theorem adj_congr {α} {r s : α → α → Prop} (hrs : ∀ a b, r a b → s a b) (l : List α)
+    (h : AdjSorted r l) : AdjSorted s l :=
+  adj_congr_mem l (fun a _ b _ => hrs a b) h
+
+/-- An output without adjacent inversion w.r.t. the SOURCE's comparator is ordered as specified. -/
 theorem contract_ordered (l : List Ent) (h : AdjSorted (fun a b => less b a = false) l) :
     l.Pairwise Ordered :=
   adj_pairwise (r := Ordered) (fun _ _ _ h1 h2 => ordered_trans h1 h2) l
-    (adj_congr (fun a b hab => (not_less_iff_ordered a b).mp hab) l h)
+    (adj_congr (fun a b hab => less_false_ordered a b hab) l h)
 
-/-! ### The executable sort satisfies the contract -/
+theorem spec_contract_ordered (l : List Ent) (h : AdjSorted (fun a b => specLess b a = false) l) :
+    l.Pairwise Ordered :=
+  adj_pairwise (r := Ordered) (fun _ _ _ h1 h2 => ordered_trans h1 h2) l
+    (adj_congr (fun a b hab => (not_specLess_iff_ordered a b).mp hab) l h)
+
+/-! ### Insertion sort -/
 
 theorem insert_perm (lt : Ent → Ent → Bool) (x : Ent) : ∀ l, (insert lt x l).Perm (x :: l) := by
   intro l
@@ -108,7 +141,7 @@ theorem isort_perm (lt : Ent → Ent → Bool) : ∀ l, (isort lt l).Perm l := b
     unfold isort
     exact (insert_perm lt x _).trans (List.Perm.cons x ih)
 
-theorem insert_pairwise (x : Ent) : ∀ l, l.Pairwise Ordered → (insert less x l).Pairwise Ordered := by
+theorem insert_pairwise (x : Ent) : ∀ l, l.Pairwise Ordered → (insert specLess x l).Pairwise Ordered := by
   intro l
   induction l with
   | nil => intro _; exact List.Pairwise.cons (fun _ h => by cases h) List.Pairwise.nil
@@ -119,7 +152,7 @@ theorem insert_pairwise (x : Ent) : ∀ l, l.Pairwise Ordered → (insert less x
     split
     · rename_i hlt
       have hxy : Ordered x y := by
-        have := (less_iff x y).mp hlt
+        have := (specLess_iff x y).mp hlt
         unfold Ordered; omega
       refine List.Pairwise.cons ?_ h
       intro b hb
@@ -128,20 +161,43 @@ theorem insert_pairwise (x : Ent) : ∀ l, l.Pairwise Ordered → (insert less x
       | tail _ hb => exact ordered_trans hxy (hy.1 b hb)
     · rename_i hlt
       have hyx : Ordered y x := by
-        have hf : less x y = false := by simpa using hlt
-        exact (not_less_iff_ordered y x).mp hf
+        have hf : specLess x y = false := by simpa using hlt
+        exact (not_specLess_iff_ordered y x).mp hf
       refine List.Pairwise.cons ?_ (ih hy.2)
       intro b hb
-      have hb' := (insert_perm less x t).subset hb
+      have hb' := (insert_perm specLess x t).subset hb
       cases hb' with
       | head => exact hyx
       | tail _ hb'' => exact hy.1 b hb''
 
-theorem isort_pairwise : ∀ l, (isort less l).Pairwise Ordered := by
+theorem isort_pairwise : ∀ l, (isort specLess l).Pairwise Ordered := by
   intro l
   induction l with
   | nil => exact List.Pairwise.nil
   | cons x t ih => unfold isort; exact insert_pairwise x _ ih
+
+theorem insert_congr (lt₁ lt₂ : Ent → Ent → Bool) (x : Ent) :
+    ∀ l, (∀ y ∈ l, lt₁ x y = lt₂ x y) → insert lt₁ x l = insert lt₂ x l := by
+  intro l
+  induction l with
+  | nil => intro _; rfl
+  | cons y t ih =>
+    intro h
+    unfold insert
+    rw [h y (List.Mem.head _), ih (fun z hz => h z (List.Mem.tail _ hz))]
+
+theorem isort_congr (lt₁ lt₂ : Ent → Ent → Bool) :
+    ∀ l, (∀ a ∈ l, ∀ b ∈ l, lt₁ a b = lt₂ a b) → isort lt₁ l = isort lt₂ l := by
+  intro l
+  induction l with
+  | nil => intro _; rfl
+  | cons x t ih =>
+    intro h
+    unfold isort
+    rw [ih (fun a ha b hb => h a (List.Mem.tail _ ha) b (List.Mem.tail _ hb))]
+    apply insert_congr
+    intro y hy
+    exact h x (List.Mem.head _) y (List.Mem.tail _ ((isort_perm lt₂ t).subset hy))
 
 /-- Two ordered permutations of the same list are equal (ties are equal `(off,len)` pairs). -/
 theorem ordered_perm_unique : ∀ (l₁ l₂ : List Ent), l₁.Perm l₂ → l₁.Pairwise Ordered → l₂.Pairwise Ordered → l₁ = l₂ := by
@@ -177,5 +233,62 @@ theorem holds_iff : ∀ l : List Ent, holds l = true ↔ AdjSorted Ordered l := 
     | cons b t' =>
       simp only [holds, AdjSorted, Bool.and_eq_true, decide_eq_true_eq]
       rw [ih]
+
+/-! ### Compatible lists: where the source's comparator is the specification's -/
+
+theorem less_eq_spec_on {l : List Ent} (hc : Compatible l) :
+    ∀ a ∈ l, ∀ b ∈ l, less a b = specLess a b := by
+  intro a ha b hb
+  apply less_eq_spec
+  intro h
+  have := hc a ha b hb h.1
+  omega
+
+theorem compatible_iff (l : List Ent) : compatible l = true ↔ Compatible l := by
+  unfold compatible Compatible
+  simp only [List.all_eq_true, Bool.or_eq_true, Bool.not_eq_true', decide_eq_false_iff_not, decide_eq_true_eq]
+  constructor
+  · intro h a ha b hb hlt
+    rcases h a ha b hb with h' | h'
+    · exact absurd hlt h'
+    · exact h'
+  · intro h a ha b hb
+    by_cases hlt : b.off < a.off
+    · exact Or.inr (h a ha b hb hlt)
+    · exact Or.inl hlt
+
+theorem compatible_perm {l₁ l₂ : List Ent} (hp : l₁.Perm l₂) (hc : Compatible l₂) : Compatible l₁ :=
+  fun a ha b hb => hc a (hp.subset ha) b (hp.subset hb)
+
+theorem specLess_swo (l : List Ent) : StrictWeakOrderOn specLess l := by
+  refine ⟨?_, ?_, ?_⟩
+  · intro a _
+    cases h : specLess a a
+    · rfl
+    · have := (specLess_iff a a).mp h; omega
+  · intro a _ b _ c _ h1 h2
+    have h1 := (specLess_iff a b).mp h1
+    have h2 := (specLess_iff b c).mp h2
+    exact (specLess_iff a c).mpr (by omega)
+  · intro a _ b _ c _ h1 h2 h3 h4
+    have h1 := (not_specLess_iff_ordered b a).mp h1
+    have h2 := (not_specLess_iff_ordered a b).mp h2
+    have h3 := (not_specLess_iff_ordered c b).mp h3
+    have h4 := (not_specLess_iff_ordered b c).mp h4
+    exact ⟨(not_specLess_iff_ordered c a).mpr (ordered_trans h3 h1),
+           (not_specLess_iff_ordered a c).mpr (ordered_trans h2 h4)⟩
+
+theorem swo_congr {lt₁ lt₂ : Ent → Ent → Bool} {l : List Ent}
+    (h : ∀ a ∈ l, ∀ b ∈ l, lt₁ a b = lt₂ a b) (hs : StrictWeakOrderOn lt₂ l) : StrictWeakOrderOn lt₁ l := by
+  obtain ⟨i, t, n⟩ := hs
+  refine ⟨?_, ?_, ?_⟩
+  · intro a ha; rw [h a ha a ha]; exact i a ha
+  · intro a ha b hb c hc h1 h2
+    rw [h a ha b hb] at h1; rw [h b hb c hc] at h2; rw [h a ha c hc]
+    exact t a ha b hb c hc h1 h2
+  · intro a ha b hb c hc h1 h2 h3 h4
+    rw [h a ha b hb] at h1; rw [h b hb a ha] at h2; rw [h b hb c hc] at h3; rw [h c hc b hb] at h4
+    rw [h a ha c hc, h c hc a ha]
+    exact n a ha b hb c hc h1 h2 h3 h4
 
 end TdModel.C36
